@@ -1514,6 +1514,22 @@ func provablyNonNeg(t *Term, g *GC) bool {
 				if ax == x && ay == y || (a.Op == "==" && ax == y && ay == x) {
 					return true
 				}
+				// the comparison written on the difference: 0 < y - x, 0 <= y - x, x - y < 0, x - y <= 0
+				if a.Op != "==" {
+					for side := 0; side < 2; side++ {
+						if z, isC := a.Args[side].constInt(); isC && z == 0 {
+							if d, okd := linearOf(a.Args[1-side]); okd && d.k == 0 && d.coef["maxSize"] == 0 {
+								cx, cy := d.coef[x], d.coef[y]
+								if side == 0 && cy == 1 && cx == -1 { // 0 < D or 0 <= D with D = y - x
+									return true
+								}
+								if side == 1 && cx == 1 && cy == -1 { // D < 0 or D <= 0 with D = x - y
+									return true
+								}
+							}
+						}
+					}
+				}
 			}
 		}
 		return false
